@@ -2,7 +2,7 @@
 From Coq Require Import List ZArith NArith Bool Arith Lia.
 From GoProbe.Base Require Import CorrLib.
 From GoProbe.C04 Require Import Model.
-From GoProbe.C30 Require Import C04P1 C04P2 C04P3 C04P4 C04P5.
+From GoProbe.C30 Require Import C04P1 C04P2 C04P3 C04P4 C04P5 C04PC.
 From GoProbe.C30 Require Import WInv.
 Import ListNotations.
 
@@ -32,9 +32,10 @@ Lemma commit_good s a nf p n d w :
   GoodS s a nf -> nf (w_key w) <= length (daylist a (w_key w)) ->
   day_at s p = Some d -> dp_key p = w_key w -> put_ok a w = true ->
   tmp_get n (d_tmps d) = Some (Some (meta_add (cur_meta a (w_key w)) w)) ->
+  wf_w w -> (forall c, c < ncols -> read_col d c (clen c (daylist a (w_key w))) (w_len w c) = Some (blk w c)) ->
   GoodS (fst (apply s (ORename (RTmp p n) (RMeta p)))) (adb_put a w) nf.
 Proof.
-  intros [S G] NB D K PO T. cbn [apply]. rewrite D, T. cbn [fst].
+  intros [S G] NB D K PO T WFw NEW. cbn [apply]. rewrite D, T. cbn [fst].
   destruct (day_at_some _ _ _ D) as [L O]. rewrite K in L.
   split; cbn [f_days upd_day]; [now apply ksorted_upd|]. rewrite K.
   intros k. destruct (keqb k (w_key w)) eqn:E.
@@ -43,13 +44,19 @@ Proof.
     unfold GoodD in *. cbn [d_meta d_suf set_tmps set_meta].
     rewrite cur_meta_daylist, <- meta_of_snoc.
     unfold daylist in *. destruct (lookup (w_key w) a) as [bl|] eqn:La.
-    + destruct G as (NE & HM & LN & HS). repeat split; auto.
+    + destruct G as (NE & HM & LN & HS & CO & WF). repeat split; auto.
       * destruct bl; discriminate.
       * rewrite app_length; lia.
       * now rewrite firstn_app_le.
+      * apply cols_ok_snoc; [eapply cols_ok_ext; [|exact CO]; reflexivity|].
+        intros c Hc. rewrite <- (NEW c Hc). now apply read_col_ext.
+      * apply Forall_app; split; auto.
     + destruct G as (HM & HS). cbn in NB. replace (nf (w_key w)) with 0 by lia. repeat split; auto.
       * discriminate.
       * cbn. lia.
+      * apply (cols_ok_snoc _ [] w); [intros pre x post E; destruct pre; discriminate|].
+        intros c Hc. rewrite <- (NEW c Hc). now apply read_col_ext.
+      * repeat constructor; auto.
   - apply keqb_neq in E. rewrite lookup_upd_other, lookup_put_other by auto. apply G.
 Qed.
 
@@ -64,7 +71,7 @@ Proof.
   split; cbn [f_days upd_day]; [now apply ksorted_upd|].
   intros k. destruct (keqb k (dp_key p)) eqn:E.
   - apply keqb_eq in E; subst k. rewrite lookup_upd_same, L. cbn [option_map]. rewrite La.
-    specialize (G (dp_key p)). rewrite L, La in G. destruct G as (NE & HM & _ & _).
+    specialize (G (dp_key p)). rewrite L, La in G. destruct G as (NE & HM & _ & _ & CO & WF).
     unfold GoodD. cbn [d_meta d_suf set_suf]. repeat split; auto.
     rewrite firstn_all. destruct bl; [contradiction|reflexivity].
   - apply keqb_neq in E. rewrite lookup_upd_other by auto. apply G.
@@ -77,7 +84,7 @@ Lemma renumber_good s a nf k0 d bl :
 Proof.
   intros [S G] L La HS. split; auto. intros k. destruct (keqb k k0) eqn:E.
   - apply keqb_eq in E; subst k. specialize (G k0). rewrite L in *. rewrite La in *.
-    destruct G as (NE & HM & _ & _). unfold GoodD. repeat split; auto.
+    destruct G as (NE & HM & _ & _ & CO & WF). unfold GoodD. repeat split; auto.
     rewrite firstn_all. destruct bl; [contradiction|exact HS].
   - apply G.
 Qed.
